@@ -312,6 +312,14 @@ HasAny(v) == CASE v[1] = "any" -> TRUE
                [] v[1] = "r" -> \E i \in 1..Len(v[2]) : HasAny(v[2][i][2])
                [] OTHER -> FALSE
 
+(* A concrete representative of a denoted value (as an engine could return it). *)
+RECURSIVE Concrete(_)
+Concrete(v) == CASE v[1] = "m" -> <<"l", [i \in 1..Len(v[2]) |-> Concrete(v[2][i])]>>
+                 [] v[1] = "l" -> <<"l", [i \in 1..Len(v[2]) |-> Concrete(v[2][i])]>>
+                 [] v[1] = "r" -> <<"r", [i \in 1..Len(v[2]) |-> <<v[2][i][1], Concrete(v[2][i][2])>>]>>
+                 [] v[1] = "any" -> Concrete(v[2][1])
+                 [] OTHER -> v
+
 (* Matching an observed value against an expected one. *)
 RECURSIVE VMatch(_, _)
 VMatch(e, o) ==
